@@ -100,6 +100,8 @@ pub enum FaultKind {
 
 #[derive(Debug, Clone)]
 pub struct Scenario {
+    /// value of --ephemeral-db (None: "bgpfu")
+    pub instance_name: Option<String>,
     pub running: Vec<RunningStmt>,
     pub ephemeral: Instance,
     pub fault: Option<(usize, FaultKind)>,
@@ -120,9 +122,12 @@ pub struct RunRecord {
     pub stderr_tail: String,
     pub server_note: String,
     pub irr_queries: Vec<String>,
+    /// every request document the server received, verbatim
+    pub raw_requests: Vec<String>,
 }
 
 struct ServerOut {
+    raw: Vec<String>,
     rpcs: Vec<String>,
     acked: Vec<Option<bool>>,
     ephemeral: Instance,
@@ -138,7 +143,7 @@ const ERR: &str = "<rpc-error><error-type>protocol</error-type><error-tag>operat
 
 #[allow(clippy::too_many_lines)]
 fn serve(listener: &UnixListener, scn: &Scenario) -> ServerOut {
-    let mut out = ServerOut { rpcs: vec![], acked: vec![], ephemeral: scn.ephemeral.clone(), commits: 0, note: String::new() };
+    let mut out = ServerOut { raw: vec![], rpcs: vec![], acked: vec![], ephemeral: scn.ephemeral.clone(), commits: 0, note: String::new() };
     let Some(mut conn) = RelayConn::accept(listener, Duration::from_secs(15)) else {
         out.note = "the agent never started its cli stand-in".into();
         return out;
@@ -162,6 +167,7 @@ fn serve(listener: &UnixListener, scn: &Scenario) -> ServerOut {
         let id = rpc.attr("message-id").unwrap_or("").to_string();
         let Some(op) = rpc.children.first() else { break };
         let idx = out.rpcs.len();
+        out.raw.push(doc.to_string());
         out.rpcs.push(op.name.clone());
         out.acked.push(None);
         let is_load = op.name == "load-configuration";
@@ -312,7 +318,7 @@ pub fn run_agent(scn: &Scenario, irrd: &Irrd, tag: &str) -> RunRecord {
     let server = thread::spawn(move || serve(&listener, &scn2));
     let stderr_path = dir.join("agent.stderr");
     let mut child = Command::new(exe_dir.join("vagent"))
-        .args(["--frequency", "0", "--irrd-host", "127.0.0.1", "--irrd-port", &irrd.port.to_string(), "--ephemeral-db", "bgpfu", "-v"])
+        .args(["--frequency", "0", "--irrd-host", "127.0.0.1", "--irrd-port", &irrd.port.to_string(), "--ephemeral-db", scn.instance_name.as_deref().unwrap_or("bgpfu"), "-v"])
         .env("BGPFU_VERIF_CLI_PATH", exe_dir.join("vrelay"))
         .env("VERIF_RELAY_SOCKET", &sock)
         .env("NO_COLOR", "1")
@@ -344,7 +350,8 @@ pub fn run_agent(scn: &Scenario, irrd: &Irrd, tag: &str) -> RunRecord {
     }
     // unblock a server that is still waiting for the relay
     _ = UnixStream::connect(&sock);
-    let out = server.join().unwrap_or_else(|_| ServerOut { rpcs: vec![], acked: vec![], ephemeral: Instance::default(), commits: 0, note: "server thread panicked".into() });
+    let out = server.join().unwrap_or_else(|_| ServerOut { raw: vec![], rpcs: vec![], acked: vec![], ephemeral: Instance::default(), commits: 0, note: "server thread panicked".into() });
+    rec.raw_requests = out.raw;
     rec.rpcs = out.rpcs;
     rec.acked = out.acked;
     rec.ephemeral_after = out.ephemeral;
@@ -380,7 +387,7 @@ pub fn run_c04(report: &mut Report) {
     // fault-free runs first: they define the request sequence
     let irrd0 = Irrd::start(model.db.clone());
     for &n in &ns {
-        let base = Scenario { running: policies(n), ephemeral: Instance::default(), fault: None, expected_loads: n, irr_plan: Plan::default() };
+        let base = Scenario { instance_name: None, running: policies(n), ephemeral: Instance::default(), fault: None, expected_loads: n, irr_plan: Plan::default() };
         let rec = run_agent(&base, &irrd0, &format!("C04-base-{n}"));
         let expect: Vec<String> = ["open-configuration", "get-config", "get-config"].iter().map(|s| (*s).to_string()).chain((0..n).map(|_| "load-configuration".to_string())).chain(["commit-configuration", "close-configuration", "close-session"].iter().map(|s| (*s).to_string())).collect();
         if rec.rpcs != expect || rec.exit != Some(0) || rec.commits != 1 {
@@ -502,7 +509,7 @@ pub fn run_c15(report: &mut Report) {
         .map(|(si, (kind, pols, bad_idx, plan))| {
             let irrd = Irrd::start(model.db.clone());
             let running: Vec<RunningStmt> = pols.iter().map(|(n, e)| managed_stmt(n, e)).collect();
-            let scn = Scenario { running, ephemeral: Instance::default(), fault: None, expected_loads: pols.len() - bad_idx.len(), irr_plan: plan.clone() };
+            let scn = Scenario { instance_name: None, running, ephemeral: Instance::default(), fault: None, expected_loads: pols.len() - bad_idx.len(), irr_plan: plan.clone() };
             let mut recs = Vec::new();
             let mut orders = std::collections::BTreeSet::new();
             let want_orders: usize = (1..=pols.len() - bad_idx.len()).product();
@@ -614,7 +621,7 @@ pub fn c01_slice(report: &mut Report) -> u64 {
             }
             let managed: Vec<&(String, Ex)> = if round == 3 { exprs.iter().skip(1).collect() } else { exprs.iter().collect() };
             let running: Vec<RunningStmt> = managed.iter().map(|(n, e)| managed_stmt(n, &e.render())).collect();
-            let scn = Scenario { running, ephemeral: installed.clone(), fault: None, expected_loads: 0, irr_plan: Plan::default() };
+            let scn = Scenario { instance_name: None, running, ephemeral: installed.clone(), fault: None, expected_loads: 0, irr_plan: Plan::default() };
             let rec = run_agent(&scn, &irrd, &format!("C01-{variant}-{round}"));
             runs += 1;
             let case = json!({"database_variant": variant, "round": round, "requests_seen": rec.rpcs, "exit_status": rec.exit, "installed_before": installed.render_configuration(), "installed_after": rec.ephemeral_after.render_configuration(), "agent_log_tail": rec.stderr_tail});
@@ -648,6 +655,56 @@ pub fn c01_slice(report: &mut Report) -> u64 {
                     }
                     (None, false) => {}
                 }
+            }
+        }
+    }
+    runs
+}
+
+// ---------------- C02: what the agent writes, and where ----------------
+/// One create run and one change run with a non-default instance name: the agent must open exactly
+/// that ephemeral instance, use only merge loads of XML whose content stays inside
+/// configuration/policy-options/policy-statement, and send no other configuration-changing request.
+pub fn c02_slice(report: &mut Report) -> u64 {
+    let model: Model = base_model(0);
+    let irrd = Irrd::start(model.db.clone());
+    let mut installed = Instance::default();
+    let mut runs = 0;
+    for (round, pols) in [vec![("pol-a", "AS-A"), ("pol-b", "AS65003")], vec![("pol-a", "AS65002"), ("pol-c", "RS-X")]].into_iter().enumerate() {
+        let running: Vec<RunningStmt> = pols.iter().map(|(n, e)| managed_stmt(n, e)).collect();
+        let scn = Scenario { instance_name: Some("verif-instance-7".into()), running, ephemeral: installed.clone(), fault: None, expected_loads: 0, irr_plan: Plan::default() };
+        let rec = run_agent(&scn, &irrd, &format!("C02-{round}"));
+        runs += 1;
+        installed = rec.ephemeral_after.clone();
+        let case = json!({"round": round, "requests": rec.raw_requests, "exit_status": rec.exit});
+        if rec.exit != Some(0) {
+            report.violation("C02:e2e:run-fails", &format!("the fault-free run {round} failed: {:?}", rec.exit), case.clone());
+        }
+        let allowed = ["open-configuration", "get-config", "load-configuration", "commit-configuration", "close-configuration", "close-session"];
+        for raw in &rec.raw_requests {
+            let Ok(rpc) = parse_xml(raw) else { continue };
+            let Some(op) = rpc.children.first() else { continue };
+            if !allowed.contains(&op.name.as_str()) {
+                report.violation(&format!("C02:e2e:unexpected-request:{}", op.name), &format!("the agent sent <{}>, which is not part of its documented request sequence", op.name), case.clone());
+            }
+            match op.name.as_str() {
+                "open-configuration" => {
+                    let inst = op.child("ephemeral-instance").map(|n| n.text.clone());
+                    if inst.as_deref() != Some("verif-instance-7") || op.children.len() != 1 {
+                        report.violation("C02:e2e:wrong-database-opened", &format!("open-configuration does not target the configured ephemeral instance: {raw}"), case.clone());
+                    }
+                }
+                "load-configuration" => {
+                    if op.attr("action") != Some("merge") || op.attr("format") != Some("xml") || op.attrs.len() != 2 {
+                        report.violation("C02:e2e:load-is-not-a-merge-of-xml", &format!("load-configuration attributes {:?}", op.attrs), case.clone());
+                    }
+                    let ok = op.children.len() == 1 && op.children[0].name == "configuration" && op.children[0].children.iter().all(|c| c.name == "policy-options" && c.children.iter().all(|p| p.name == "policy-statement"));
+                    if !ok {
+                        report.violation("C02:e2e:writes-outside-policy-statement", &format!("load-configuration payload leaves configuration/policy-options/policy-statement: {raw}"), case.clone());
+                    }
+                }
+                "get-config" | "commit-configuration" | "close-configuration" | "close-session" => {}
+                _ => {}
             }
         }
     }
